@@ -138,9 +138,52 @@ PROPS["C15"] = dict(
     trusted_base=["hash maps are modelled as association lists followed by the sort the Rust performs"],
 )
 
+def c01_optcheck(run, harnesses):
+    """The hypothesis of the all-level optimizer theorem, tested on real samples with the PROVED-SOUND boolean
+    `OptProof.optimizeCheck` (Lean, run by `lake env lean --run OptCheckMain.lean`: its imports reach Mathlib, so
+    it cannot be linked into the driver): for generated terminating programs x levels 2,3 x environments, with
+    the iteration orders the Rust run really used, the analysis every later round consumes is sound for the
+    program it rebuilds. `check-ok` makes `optimize_preserves_of_check'` apply to that program and environment."""
+    import os, subprocess
+    from common import LEAN, read_lines
+    h = harnesses.get("debug") or list(harnesses.values())[0]
+    n = 150 if run.tier == "quick" else 6000
+    d = os.path.join(run.work, "optcheck")
+    rc, out = h.run("optcheck", run.seed + 11, n, d, timeout=3000)
+    reqp = os.path.join(d, "optcheck.req")
+    reqs = read_lines(reqp)
+    try:
+        with open(reqp, "rb") as fi:
+            r = subprocess.run(["lake", "env", "lean", "--run", "OptCheckMain.lean"], cwd=LEAN, stdin=fi,
+                               capture_output=True, timeout=6000)
+        models = r.stdout.decode().split("\n")[: len(reqs)]
+        err = r.stderr.decode()[-500:]
+    except subprocess.TimeoutExpired:
+        models, err = [], "timeout"
+    okc = sum(1 for m in models if m == "check-ok")
+    falsec = sum(1 for m in models if m == "check-false")
+    other = [(q, m) for q, m in zip(reqs, models) if m not in ("check-ok", "check-false")]
+    run.evaluations += len(reqs)
+    for q in reqs:
+        run.nontrivial.add(q)
+    run.stream_stats["optcheck"] = dict(requests=len(reqs), check_ok=okc, check_false=falsec, other=len(other))
+    if reqs:
+        run.samples.append({"stream": "optcheck", "request": reqs[0][:300], "reply": (models[:1] or ["?"])[0]})
+    run.oblige(f"optcheck stream: {len(reqs)} (program, level, environment) samples, runner answered every request with the "
+               f"real iteration orders accepted by the model ({okc} check-ok, {falsec} check-false = hypothesis not "
+               f"established for that sample, theorem silent)",
+               rc == 0 and len(models) == len(reqs) and len(reqs) > 0 and not other,
+               (err or "") + (f" first unexpected reply: {other[0][1][:200]} for {other[0][0][:200]}" if other else ""))
+    if other:
+        run.violations.append(dict(what="correspondence 'optcheck' (recorded iteration orders vs optimizer model) no longer checks: "
+                                        + other[0][1][:200], stream="optcheck", request=other[0][0], found=False, key="optcheck"))
+
+
+
 PROPS["C01"] = dict(
     modules=["Hpbf.Props.C01", "Hpbf.Props.C01Opt", "Hpbf.Props.C01Dse", "Hpbf.Props.ChainTotal", "Hpbf.Props.C01Loop", "Hpbf.Props.C01Rebuild", "Hpbf.Props.C01Rounds", "Hpbf.Props.ChainO1", "Hpbf.Props.C13Opt"],
-    theorems=t("Hpbf.OptTotal", "optimize_no_panic' optimize_never_panics optimize_total' optimize_canonL'") +
+    theorems=t("Hpbf.OptProof", "optimizeOnce_preserves_g' optimizeOnce_onceOk_g' laterRound_ok' prevAnalSound_of_check' optimize_preserves_of_check' optimize_onceOk_of_check' optimize_preserves_of_prevAnalSound'") +
+             t("Hpbf.OptTotal", "optimize_no_panic' optimize_never_panics optimize_total' optimize_canonL'") +
              t("Hpbf.OptProof", "optimizeOnce_rdOk' optimizeOnce_analSound' round_dse_behEq' analSound_round1' round1_dse_behEq' optimize_preserves_of_laterRounds'") +
              t("Hpbf.Chain", "level1_all_backends ir_level1 ir_limited_level1 irAgrees_level1 irAgrees_of_behEq onceOk_level1") +
              t("Hpbf.OptProof", "optimizeOnce_shape' optimizeOnce_shapeOk' dse_total_after_round' optimizeOnce_atMost_atLeast analSound_after_round1' round1_dse_preserves' optimize_preserves_of_steps'") +
@@ -166,8 +209,9 @@ PROPS["C01"] = dict(
              dict(suite="optrun", quick=700, thorough=40000, judge="tie"),
              dict(suite="levelcap", quick=400, thorough=20000, judge="const"),
              dict(suite="irecho", quick=300, thorough=5000, judge="tie")],
+    extra=[c01_optcheck],
     corpus=["programs"], corpus_judge="program",
-    scope="HEADLINE AT -O1 (Props/ChainO1, level1_all_backends): for every balanced source, width >= 1, environment and ANY oracle for which the optimizer model succeeds at level 1, canonical semantics, in-place interpreter, IR interpreter on the optimized IR, and the bytecode machine (both dispatch profiles) on translate of the optimized IR have the same set of results, and the JIT's machine code returns the canonical result under JitRange. OPTIMISATION LEVEL 1 IS PROVED (Props/C01Rebuild): for every IR block whose expressions are in normal form (parser output is), every width >= 1, every oracle of hash iteration orders and every environment, the exact optimizer model Opt.optimize b 1 returns a block with the same behaviour — forward, backward and prefix on the event trace (optimize_preserves_level1', optimize_parse_level1) — and every loop it marks `once` is entered with a non-zero condition (optimize_onceOk_level1'), which discharges the hypothesis of the bytecode/JIT chain at -O1. The proof covers the symbolic rebuild state (written/pending/reverse), Tarjan-ordered emission for every iteration order, clobbering, nested blocks with the parent chain, inlining, the wrapping if, loop analysis and loop motion; it FOUND two genuine miscompiles (F11, F12), both repaired. Towards levels 2 and 3 (Props/C01Rounds): the analysis a round records matches its output node by node, so dead store elimination never fails on it and its syntactic hypotheses hold (optimizeOnce_shapeOk', dse_total_after_round'); at_most_once/at_least_once facts hold; round 1 followed by DSE preserves behaviour given the one remaining clause ReadsFact (round1_dse_preserves'); optimize_preserves_of_steps' reduces every level to named per-step obligations. The rounds that USE the previous analysis are in progress. HEADLINE (Props/ChainTotal, level0_all_backends): for every balanced source, width >= 1 and environment the canonical semantics, the in-place interpreter, the IR interpreter, the bytecode machine in both dispatch profiles (p = translate (parse src), total) have the SAME set of results (ending kind + event trace), and the machine code of the JIT returns the canonical result (forward; full converse in limited mode) under explicit range hypotheses. Level 0 is FULL: for every balanced program, environment and width (w >= 1) the IR produced by "
+    scope="HEADLINE AT -O1 (Props/ChainO1, level1_all_backends): for every balanced source, width >= 1, environment and ANY oracle for which the optimizer model succeeds at level 1, canonical semantics, in-place interpreter, IR interpreter on the optimized IR, and the bytecode machine (both dispatch profiles) on translate of the optimized IR have the same set of results, and the JIT's machine code returns the canonical result under JitRange. OPTIMISATION LEVEL 1 IS PROVED (Props/C01Rebuild): for every IR block whose expressions are in normal form (parser output is), every width >= 1, every oracle of hash iteration orders and every environment, the exact optimizer model Opt.optimize b 1 returns a block with the same behaviour — forward, backward and prefix on the event trace (optimize_preserves_level1', optimize_parse_level1) — and every loop it marks `once` is entered with a non-zero condition (optimize_onceOk_level1'), which discharges the hypothesis of the bytecode/JIT chain at -O1. The proof covers the symbolic rebuild state (written/pending/reverse), Tarjan-ordered emission for every iteration order, clobbering, nested blocks with the parent chain, inlining, the wrapping if, loop analysis and loop motion; it FOUND two genuine miscompiles (F11, F12), both repaired. Towards levels 2 and 3 (Props/C01Rounds): the analysis a round records matches its output node by node, so dead store elimination never fails on it and its syntactic hypotheses hold (optimizeOnce_shapeOk', dse_total_after_round'); at_most_once/at_least_once facts hold; round 1 followed by DSE preserves behaviour given the one remaining clause ReadsFact (round1_dse_preserves'); optimize_preserves_of_steps' reduces every level to named per-step obligations. The rounds that USE the previous analysis are proved under the semantic hypothesis PrevAnalSound (laterRound_ok'), which has a PROVED-SOUND executable test: optimize_preserves_of_check' gives behaviour preservation at EVERY level whenever optimizeCheck N b level orders env = true; the test runs on every sampled program with the real iteration orders (optcheck stream). HEADLINE (Props/ChainTotal, level0_all_backends): for every balanced source, width >= 1 and environment the canonical semantics, the in-place interpreter, the IR interpreter, the bytecode machine in both dispatch profiles (p = translate (parse src), total) have the SAME set of results (ending kind + event trace), and the machine code of the JIT returns the canonical result (forward; full converse in limited mode) under explicit range hypotheses. Level 0 is FULL: for every balanced program, environment and width (w >= 1) the IR produced by "
           "Program::parse, run by the IR interpreter model, has exactly the canonical event sequence, terminates iff "
           "the canonical run does, and every intermediate output is a canonical prefix (parse_forward/backward/prefix); "
           "the folding of odd-step loops is justified for every width. Levels >= 1: partial, see not_proved. The "
@@ -197,8 +241,9 @@ PROPS["C01"] = dict(
           "under explicit soundness hypotheses on the state queries (compare, getConstant, getBoth) that the rebuild "
           "invariant has to supply.",
     not_proved="optimize (levels 1..3) now HAS a complete exact Lean model (Opt.lean, 986 lines, tied on ~290 000 "
-               "programs incl. every example program: 0 differences), and its FIRST rebuild round (level 1) is proved behaviour preserving; the rounds that consume the previous "
-               "round's analysis (levels 2, 3) are NOT yet a theorem (proof work in progress); "
+               "programs incl. every example program: 0 differences), and is proved behaviour preserving at level 1 unconditionally and at levels 2, 3 under PrevAnalSound; that "
+               "PrevAnalSound holds for the pipeline itself is NOT a theorem (its proved-sound boolean test is run per sample; "
+               "where it would be false the theorem is silent); "
                "proved are its arithmetic cores and its dead store elimination pass, whose soundness hypotheses (AnalSound, "
                "NoDupTargets) are facts about the unmodelled rebuild round and are TESTED on every run (dsefacts: the "
                "verified boolean checker C01Dse.checkSound on the real analysis of every sampled program). For levels >= 1 "
